@@ -384,18 +384,47 @@ def o_to_pgl(A, bilinear_form=np.diag([-1, 1, 1])):
 
     A_d = conj_i @ A @ conj
 
-    a = np.sqrt(np.abs(A_d[0, 0]))
-    b = np.sqrt(np.abs(A_d[0, 2]))
-    c = np.sqrt(np.abs(A_d[2, 0]))
-    d = np.sqrt(np.abs(A_d[2, 2]))
+    # A_d is the symmetric square of a matrix [[a, b], [c, d]], with
+    # respect to the basis used by sl2_irrep (e_2^2, e_1 e_2, e_1^2):
+    #
+    # [[d^2,  cd,      c^2],
+    #  [2bd,  ad + bc, 2ac],
+    #  [b^2,  ab,      a^2]]
+    #
+    # possibly multiplied by -1 (-I acts trivially on the hyperbolic
+    # plane). The squares determine a, b, c, d up to sign; we make the
+    # entry with largest absolute value positive and recover the other
+    # entries from the mixed terms.
 
     # TODO: make this vector-safe, right now the docstring is a lie
-    if A_d[0][1] < 0:
-        b = b * -1
-    if A_d[1][0] < 0:
-        c = c * -1
-    if A_d[1][2] * A_d[0][1] < 0:
-        d = d * -1
+    squares = [A_d[2, 2], A_d[2, 0], A_d[0, 2], A_d[0, 0]]
+    if np.sum(squares) < 0:
+        A_d = -A_d
+        squares = [-sq for sq in squares]
+
+    pivot = np.argmax(np.abs(squares))
+    pivot_val = np.sqrt(np.abs(squares[pivot]))
+
+    if pivot == 0:
+        a = pivot_val
+        b = A_d[2, 1] / a
+        c = A_d[1, 2] / (2 * a)
+        d = (A_d[1, 1] - b * c) / a
+    elif pivot == 1:
+        b = pivot_val
+        a = A_d[2, 1] / b
+        d = A_d[1, 0] / (2 * b)
+        c = (A_d[1, 1] - a * d) / b
+    elif pivot == 2:
+        c = pivot_val
+        a = A_d[1, 2] / (2 * c)
+        d = A_d[0, 1] / c
+        b = (A_d[1, 1] - a * d) / c
+    else:
+        d = pivot_val
+        c = A_d[0, 1] / d
+        b = A_d[1, 0] / (2 * d)
+        a = (A_d[1, 1] - b * c) / d
 
     return np.array([[a, b],
                      [c, d]])
